@@ -313,6 +313,29 @@ def model_execs(kind, limit, seed):
                    "place": "lo" if i % 2 else "hi", "tag": "tlc-arena", "expect": ",".join(exp) or "-"}
             hdr["bs"] = 1024 if hdr["src"] == "static" else 4096 if hdr["src"] == "virtual" else 64
             res.append((hdr, cmds))
+    elif kind == "virtual":
+        # an uncached memory_arena over virtual_block_allocator driven along the histories of the VirtualBlocks
+        # design model (refused commits included): the model predicts every commit / decommit / release the
+        # operating system sees
+        beh, _ = models.behaviours("MCVirtualGen", "MCVirtual_gen.cfg", limit, seed)
+        for i, h in enumerate(beh):
+            cmds, exp, out = [], [], []
+            for c in h:
+                if c["op"] == "ab":
+                    cmds.append("ab")
+                    exp.append("c%d" % c["blk"])
+                    out.append(c["blk"])
+                elif c["op"] == "abf":
+                    cmds += ["fail 1", "ab", "nofail"]
+                    exp.append("x%d" % c["blk"])
+                else:
+                    cmds.append("db")
+                    exp.append("d%d" % c["blk"])
+                    out.pop()
+            # destruction: the arena gives the outstanding blocks back youngest first, the source releases its range
+            exp += ["d%d" % b for b in reversed(out)] + ["r0"]
+            res.append(({"fam": "arena", "src": "virtual", "cached": 0, "bs": 4096, "place": "lo" if i % 2 else "hi",
+                         "tag": "tlc-virtual", "vmexpect": ".".join(exp)}, cmds))
     elif kind == "coll":
         # every sequence the PoolCollection model distinguishes (two buckets, throwing and composable requests,
         # releases by age) on a real two-bucket collection over one fixed block: the reservations, insert_rest
@@ -460,6 +483,8 @@ def jobs_for(prop, tier, seed):
         addm(["rel", "base", "dbg"], ["coll"], "tlc-coll")
     if prop in ("C05", "C03", "C18"):
         addm(["rel", "base", "dbg"], ["arena_c", "arena_u"], "tlc-arena")
+    if prop in ("C05", "C03"):
+        addm(["rel", "base", "dbg"], ["virtual"], "tlc-virtual")
     if prop in ("C01", "C02", "C06"):
         addm(["base", "dbg", "f16"], ["stack"])
     if prop in ("C01", "C07"):
